@@ -199,3 +199,79 @@ pub assume_specification [http::Uri::path] (u: &http::Uri) -> (r: &str)
     ensures r@ == uri_path(*u);
 pub uninterp spec fn box_body_bytes(b: http_body_util::combinators::BoxBody<hyper::body::Bytes, hyper::Error>) -> Seq<u8>;   // all bytes the body yields
 pub uninterp spec fn into_bytes_view<T>(t: T) -> Seq<u8>;    // Into<Bytes>
+
+// ---- http::request::Builder (agent's own requests) ----
+#[verifier::external_type_specification] #[verifier::external_body]
+pub struct ExPathAndQuery(http::uri::PathAndQuery);
+#[verifier::external_type_specification] #[verifier::external_body]
+pub struct ExHttpError(http::Error);
+pub assume_specification [http::Request::<()>::builder] () -> (r: http::request::Builder)
+    ensures builder_parts(r) matches Some(p) && hm_view(parts_headers(p)) == Map::<Seq<char>, Seq<http::header::HeaderValue>>::empty();
+pub assume_specification [http::Uri::path_and_query] (u: &http::Uri) -> std::option::Option<&http::uri::PathAndQuery>;
+pub assume_specification [http::uri::PathAndQuery::as_str] (p: &http::uri::PathAndQuery) -> &str;
+// method / uri: set one part, keep the headers (an invalid argument puts the builder into its error state)
+pub assume_specification<T> [http::request::Builder::method] (b: http::request::Builder, m: T) -> (r: http::request::Builder)
+    where <http::Method as std::convert::TryFrom<T>>::Error: std::convert::Into<http::Error>, http::Method: std::convert::TryFrom<T>,
+    ensures builder_parts(r) matches Some(p2) ==> builder_parts(b) matches Some(p1) && parts_headers(p2) == parts_headers(p1);
+pub assume_specification<T> [http::request::Builder::uri] (b: http::request::Builder, u: T) -> (r: http::request::Builder)
+    where <http::Uri as std::convert::TryFrom<T>>::Error: std::convert::Into<http::Error>, http::Uri: std::convert::TryFrom<T>,
+    ensures builder_parts(r) matches Some(p2) ==> builder_parts(b) matches Some(p1) && parts_headers(p2) == parts_headers(p1);
+// header: "Appends a header to this request builder. This function will append the provided key/value as a header to the
+// internal HeaderMap being constructed." Name and value are converted with TryFrom; on failure the builder keeps the error.
+pub uninterp spec fn value_text<V>(v: V) -> Seq<char>;        // the text a String / &String / &str value argument carries
+#[verifier::external_body]
+pub broadcast proof fn axiom_value_text_string(v: String) ensures #[trigger] value_text::<String>(v) == v@ {}
+#[verifier::external_body]
+pub broadcast proof fn axiom_value_text_string_ref(v: &String) ensures #[trigger] value_text::<&String>(v) == v@ {}
+#[verifier::external_body]
+pub broadcast proof fn axiom_key_view_string(k: String) ensures #[trigger] key_view::<String>(k) == ascii_lower(k@) {}   // HeaderName::try_from lower-cases
+pub open spec fn hm_appended(hm: HMap, n: Seq<char>, v: http::header::HeaderValue) -> HMap {
+    hm.insert(n, if hm.contains_key(n) { hm[n].push(v) } else { seq![v] })
+}
+// visible ASCII text (HeaderValue::to_str succeeds exactly on such values)
+pub open spec fn vis_char(c: char) -> bool { (32 <= (c as u32) && (c as u32) < 127) || c == '\t' }
+pub open spec fn vis(s: Seq<char>) -> bool { forall|i: int| 0 <= i < s.len() ==> vis_char(#[trigger] s[i]) }
+pub assume_specification<K, V> [http::request::Builder::header] (b: http::request::Builder, k: K, v: V) -> (r: http::request::Builder)
+    where <http::HeaderName as std::convert::TryFrom<K>>::Error: std::convert::Into<http::Error>,
+          <http::HeaderValue as std::convert::TryFrom<V>>::Error: std::convert::Into<http::Error>,
+          http::HeaderName: std::convert::TryFrom<K>, http::HeaderValue: std::convert::TryFrom<V>,
+    ensures builder_parts(r) matches Some(p2) ==> builder_parts(b) matches Some(p1) && parts_method(p2) == parts_method(p1) && parts_uri(p2) == parts_uri(p1)
+                && exists|val: http::header::HeaderValue| hv_view(val) == value_text(v) && (hv_visible_ascii(val) <==> vis(value_text(v)))
+                    && #[trigger] hm_appended(hm_view(parts_headers(p1)), key_view(k), val) == hm_view(parts_headers(p2));
+// body: "Consumes this builder, using the provided body to return a constructed Request"; Err if the builder holds an error
+pub assume_specification<T> [http::request::Builder::body] (b: http::request::Builder, body: T) -> (r: std::result::Result<http::Request<T>, http::Error>)
+    ensures r matches Ok(q) ==> builder_parts(b) matches Some(p) && req_method(q) == parts_method(p) && req_uri(q) == parts_uri(p)
+                && req_headers(q) == parts_headers(p) && req_body(q) == body;
+#[verifier::external_body] pub broadcast proof fn axiom_fmt_http_error() ensures #[trigger] vstd::std_specs::fmt::fmt_req_all::<http::Error>() {}
+#[verifier::external_body]
+pub broadcast proof fn axiom_into_bytes_vec(v: Vec<u8>) ensures #[trigger] into_bytes_view::<Vec<u8>>(v) == v@ {}      // Bytes::from(Vec<u8>)
+// Display for usize writes decimal digits
+#[verifier::external_body]
+pub broadcast proof fn axiom_to_string_usize_vis(t: &usize, s: String)
+    ensures #[trigger] vstd::string::to_string_from_display_ensures::<usize>(t, s) ==> vis(s@) {}
+pub broadcast proof fn lemma_append_vis(hm: HMap, n: Seq<char>, v: http::header::HeaderValue)
+    requires all_values_visible_ascii(hm), hv_visible_ascii(v),
+    ensures all_values_visible_ascii(#[trigger] hm_appended(hm, n, v)),
+{
+    let h2 = hm_appended(hm, n, v);
+    assert forall|m: Seq<char>, i: int| h2.contains_key(m) && 0 <= i < h2[m].len() implies hv_visible_ascii(#[trigger] h2[m][i]) by {
+        if m == n { if hm.contains_key(n) { if i < hm[n].len() { assert(hv_visible_ascii(hm[n][i])); } } } else { assert(hv_visible_ascii(hm[m][i])); }
+    }
+}
+pub proof fn lemma_vis_concat(a: Seq<char>, b: Seq<char>)
+    requires vis(a), vis(b),
+    ensures vis(a + b),
+{
+    assert forall|i: int| 0 <= i < (a + b).len() implies vis_char(#[trigger] (a + b)[i]) by { if i < a.len() { assert(vis_char(a[i])); } else { assert(vis_char(b[i - a.len()])); } }
+}
+proof fn lits_claims()
+    ensures vis("{ \""@ + crate::common::constants::CLAIMS_IS_ROOT@ + "\": \""@ + bool_text(true) + "\"}"@), vis("0"@),
+{
+    reveal_strlit("{ \""); reveal_strlit("isRoot"); reveal_strlit("\": \""); reveal_strlit("true"); reveal_strlit("\"}"); reveal_strlit("0");
+    assert("{ \""@.len() == 3); assert("isRoot"@.len() == 6); assert("\": \""@.len() == 4); assert("true"@.len() == 4); assert("\"}"@.len() == 2); assert("0"@.len() == 1);
+    assert(vis("{ \""@)); assert(vis("isRoot"@)); assert(vis("\": \""@)); assert(vis("true"@)); assert(vis("\"}"@));
+    lemma_vis_concat("{ \""@, "isRoot"@);
+    lemma_vis_concat("{ \""@ + "isRoot"@, "\": \""@);
+    lemma_vis_concat("{ \""@ + "isRoot"@ + "\": \""@, "true"@);
+    lemma_vis_concat("{ \""@ + "isRoot"@ + "\": \""@ + "true"@, "\"}"@);
+}
